@@ -598,6 +598,7 @@ void reb_simulation_save_to_stream(struct reb_simulation* r, char** bufp, size_t
         r->collision_resolve ||
         r->additional_forces ||
         r->heartbeat ||
+        (r->ri_mercurius.L && r->ri_mercurius.L != reb_integrator_mercurius_L_mercury) ||
         r->ri_trace.S ||
         r->ri_trace.S_peri ||
         r->pre_timestep_modifications ||
